@@ -10,11 +10,194 @@ Definition label_noclose (l : label) : Prop := match l with LCall _ OClose => Fa
 (* a Wait marker that somebody waits for is closed or still travelling through the write buffer *)
 Definition marker_in (B : list item) (id : N) : Prop := exists i, In i B /\ it_wait i = Some id.
 
+Lemma marker_in_app B i id : marker_in B id -> marker_in (B ++ [i]) id.
+Proof. intros (j & Hj & Hw). exists j. split; [apply in_or_app; now left|exact Hw]. Qed.
+Lemma marker_in_last B id : marker_in (B ++ [marker id]) id.
+Proof. exists (marker id). split; [apply in_or_app; right; now left|reflexivity]. Qed.
+Lemma marker_in_pop i B id (M : gset N) :
+  id ∈ M \/ marker_in (i :: B) id ->
+  match it_wait i with Some id' => id ∈ {[id']} ∪ M \/ marker_in B id | None => id ∈ M \/ marker_in B id end.
+Proof.
+  intros [H|(j & [<-|Hj] & Hw)].
+  - destruct (it_wait i); [left; set_solver|now left].
+  - rewrite Hw. left. set_solver.
+  - destruct (it_wait i); right; exists j; auto.
+Qed.
+
 Record proto_inv (s : state) : Prop := {
   pi_open : s_closed s = false /\ s_chan_closed s = false /\ s_panic s = false;
   pi_noclosing : forall tid t st cl, s_threads s !! tid = Some t -> t_pc t = CClr st cl -> cl = false /\ st <> ClsStop;
   pi_wait : forall tid t id, s_threads s !! tid = Some t -> t_pc t = CWaitBlock id ->
             id ∈ s_markers s \/ marker_in (s_buf s) id;
   (* the applier goroutine is gone only while a Clear is between stop and restart *)
-  pi_exited : s_apc s = AExited -> exists tid t, s_threads s !! tid = Some t /\ in_clr (t_pc t)
+  pi_exited : s_apc s = AExited -> exists tid t, s_threads s !! tid = Some t /\ in_clr (t_pc t);
+  pi_busy : forall tid t o, s_threads s !! tid = Some t -> t_op t = Some o -> t_pc t <> CIdle;
+  pi_ttl : forall tid t o, s_threads s !! tid = Some t -> t_op t = Some o -> t_pc t = CTtl2 -> exists k c, o = OGetTTL k c
 }.
+
+Lemma init_proto maxCost bdur now mon : proto_inv (init_state maxCost bdur now mon).
+Proof.
+  constructor; simpl; auto; try (intros; rewrite lookup_empty in *; discriminate). discriminate.
+Qed.
+
+Lemma ex_thread_other (T : gmap nat cthread) tid t' (P : cpc -> Prop) :
+  (exists tid0 t0, T !! tid0 = Some t0 /\ P (t_pc t0)) ->
+  (forall t0, T !! tid = Some t0 -> P (t_pc t0) -> P (t_pc t')) ->
+  exists tid0 t0, <[tid := t']> T !! tid0 = Some t0 /\ P (t_pc t0).
+Proof.
+  intros (tid0 & t0 & Hl & HP) Hsame. destruct (decide (tid0 = tid)) as [->|Hne].
+  - exists tid, t'. rewrite lookup_insert. split; [reflexivity|]. eapply Hsame; eauto.
+  - exists tid0, t0. rewrite lookup_insert_ne by congruence. auto.
+Qed.
+
+Lemma step_proto c s l s' : label_noclose l -> clr_inv s -> proto_inv s -> mstep c s l = Some s' -> proto_inv s'.
+Proof.
+  intros HL [Hex Hun Hid] [(Hc & Hcc & Hp) Hnc Hw Hx Hb Ht] H.
+  assert (Hgt : forall tid, t_pc (get_thread s tid) <> CIdle -> s_threads s !! tid = Some (get_thread s tid))
+    by (intros; now apply get_thread_in_map).
+  step_cases H.
+  all: try (match goal with
+            | Hpc : t_pc (get_thread ?st ?tid) = _ |- _ =>
+                let Hm := fresh "Hm" in
+                assert (Hm : s_threads st !! tid = Some (get_thread st tid))
+                  by (apply get_thread_in_map; rewrite Hpc; discriminate)
+            end).
+  all: try congruence.
+  all: try solve [ exfalso; exact HL ].
+  all: try solve [ match goal with Hm : s_threads _ !! _ = Some _, Hpc : t_pc _ = CClr _ _ |- _ =>
+                     destruct (Hnc _ _ _ _ Hm Hpc); congruence end ].
+  all: constructor; msimpl.
+  (* open *)
+  all: try solve [ repeat split; assumption ].
+  (* noclosing *)
+  all: try exact Hnc.
+  all: try solve [ intros tid0 t0 st0 cl0 Hl Hpc0; thr_cases; simpl in Hpc0;
+                   first [ discriminate | (eapply Hnc; eassumption)
+                         | (inversion Hpc0; subst; split; [reflexivity|discriminate])
+                         | (inversion Hpc0; subst;
+                            match goal with Hm : s_threads _ !! _ = Some _, Hpc : t_pc _ = CClr _ _ |- _ =>
+                              destruct (Hnc _ _ _ _ Hm Hpc) as [-> _]; split; [reflexivity|discriminate] end) ] ].
+  (* wait *)
+  all: repeat match goal with Hb : s_buf _ = _ |- _ => rewrite Hb in * end.
+  all: try exact Hw.
+  all: try solve [ intros tid0 t0 id0 Hl Hpc0; thr_cases; simpl in Hpc0;
+                   first [ discriminate
+                         | (eapply Hw; eassumption)
+                         | (destruct (Hw _ _ _ Hl Hpc0) as [?|?]; [now left|right; now apply marker_in_app])
+                         | (inversion Hpc0; subst; right; apply marker_in_last) ] ].
+  all: try solve [ intros tid0 t0 id0 Hl Hpc0; thr_cases; simpl in Hpc0; try discriminate;
+                   match goal with Hwt : it_wait ?i = _ |- _ =>
+                     pose proof (marker_in_pop i _ id0 (s_markers s) (Hw _ _ _ Hl Hpc0)) as Hq; rewrite Hwt in Hq; exact Hq end ].
+  (* exited *)
+  all: try exact Hx.
+  all: try solve [ intros; discriminate ].
+  all: try solve [ intros Ha; apply ex_thread_other; [exact (Hx Ha)|];
+                   intros t0 Hl0 Hin; simpl;
+                   match goal with Hm : s_threads _ !! _ = Some _ |- _ => rewrite Hm in Hl0; inversion Hl0; subst end;
+                   match goal with Hpc : t_pc _ = _ |- _ => rewrite Hpc in Hin; simpl in Hin end;
+                   first [ tauto | (split; discriminate) ] ].
+  all: try solve [ intros Ha; apply ex_thread_other; [exact (Hx Ha)|];
+                   intros t0 Hl0 Hin; exfalso;
+                   assert (Hl1 := Hl0); apply get_thread_lookup in Hl1; subst t0;
+                   first [ (apply Hid in Hl0; [|assumption]; rewrite Hl0 in Hin; exact Hin)
+                         | (match goal with Hpc : t_pc _ = _ |- _ => rewrite Hpc in Hin; simpl in Hin; tauto end) ] ].
+  all: try solve [ intros _; eexists _, _; rewrite lookup_insert; split; [reflexivity|]; simpl; split; discriminate ].
+  (* busy *)
+  all: try exact Hb.
+  all: try solve [ intros tid0 t0 o0 Hl Hop0; thr_cases; simpl in Hop0 |- *;
+                   first [ discriminate | (eapply Hb; eassumption) ] ].
+  (* ttl *)
+  all: try exact Ht.
+  all: try solve [ intros tid0 t0 o0 Hl Hop0 Hpc0; thr_cases; simpl in Hpc0, Hop0;
+                   first [ discriminate | (eapply Ht; eassumption) | (inversion Hop0; subst; eauto) ] ].
+  all: try (assert (Hm : s_threads s !! tid = Some (get_thread s tid))
+              by (unfold get_thread in *; destruct (s_threads s !! tid); simpl in *; [reflexivity|discriminate])).
+  all: try solve [ intros tid0 t0 st0 cl0 Hl Hpc0; thr_cases; simpl in Hpc0; eapply Hnc; eassumption ].
+  all: try solve [ intros tid0 t0 id0 Hl Hpc0; thr_cases; simpl in Hpc0; eapply Hw; eassumption ].
+  all: try solve [ intros Ha; apply ex_thread_other; [exact (Hx Ha)|];
+                   intros t0 Hl0 Hin; simpl; rewrite Hm in Hl0; inversion Hl0; subst; exact Hin ].
+  all: try solve [ intros tid0 t0 o0 Hl Hop0 Hpc0; thr_cases; simpl in Hpc0, Hop0;
+                   [ inversion Hop0; subst; eapply Ht; eassumption | eapply Ht; eassumption ] ].
+  all: try solve [ intros tid0 t0 o0 Hl Hop0; thr_cases; simpl in Hop0 |- *;
+                   [ eapply Hb; eassumption | eapply Hb; eassumption ] ].
+  all: try solve [ intros Ha; congruence ].
+Qed.
+
+Record proto_invs (s : state) : Prop := { pv_clr : clr_inv s; pv_proto : proto_inv s }.
+
+Theorem reachable_proto c maxCost bdur now mon sched : Forall label_noclose sched ->
+  proto_invs (mrun c (init_state maxCost bdur now mon) sched).
+Proof.
+  intros HL. apply (mrun_invariant_lab c label_noclose proto_invs); auto.
+  - intros s l s' Hl [H1 H2] H. constructor; [eapply step_clr|eapply step_proto]; eauto.
+  - constructor; [apply init_clr|apply init_proto].
+Qed.
+
+
+(* ---------- progress ---------- *)
+Definition progress_label (l : label) : Prop :=
+  match l with LStep _ => True | LApp false _ => True | _ => False end.
+Definition enabled (c : cfg) (s : state) (l : label) : Prop := exists s', mstep c s l = Some s'.
+
+(* the applier goroutine never blocks while it has anything to do: in particular the eviction loop of policy.Add
+   always terminates and the applier never waits for a lock held across a blocking operation *)
+Lemma app_progress c s orders :
+  s_panic s = false ->
+  s_apend s <> [] \/ (s_apc s <> AIdle /\ s_apc s <> AExited) \/ (s_apc s = AIdle /\ s_buf s <> []) ->
+  enabled c s (LApp false orders).
+Proof.
+  intros Hp Hw. unfold enabled, mstep, app_step. rewrite Hp.
+  repeat case_match; eauto; try (exfalso; intuition congruence).
+  exfalso. eapply pol_add_terminates; eauto.
+Qed.
+
+Definition busy (s : state) : Prop := exists tid t, s_threads s !! tid = Some t /\ t_op t <> None.
+
+Lemma client_enabled c s tid t :
+  (1 <= c_cap c)%nat -> clr_inv s -> proto_inv s ->
+  s_threads s !! tid = Some t -> t_op t <> None ->
+  s_apend s = [] ->
+  (s_apc s = AIdle /\ s_buf s = []) \/ in_clr (t_pc t) ->
+  enabled c s (LStep tid).
+Proof.
+  intros Hcap [Hex Hun Hid] [(Hc & Hcc & Hp) Hnc Hw Hx Hb Ht] Hl Hop Hpend Hcase.
+  unfold enabled, mstep, client_step, try_send. rewrite Hp. rewrite (get_thread_lookup _ _ _ Hl).
+  destruct (t_op t) as [o|] eqn:Eo; [|congruence].
+  destruct (t_pend t); [|eauto].
+  specialize (Hb _ _ _ Hl Eo). specialize (Ht _ _ _ Hl Eo). specialize (Hw tid t).
+  destruct Hcase as [(Ha & Hbuf)|Hin].
+  - rewrite Hcc, Hbuf, Ha, Hpend in *. simpl. destruct (t_pc t) eqn:Epc; try congruence.
+    all: repeat case_match; eauto; try congruence; try lia.
+    all: try solve [ match goal with Hlt : (0 <? _)%nat = false |- _ => apply Nat.ltb_ge in Hlt; lia end ].
+    all: try solve [ destruct (Hw _ Hl eq_refl) as [?|(j & [] & _)]; contradiction ].
+    all: try solve [ destruct Ht as (k0 & cc & ?); [reflexivity|congruence] ].
+    all: try solve [ destruct (Hnc _ _ _ _ Hl Epc); congruence ].
+    all: try solve [ exfalso; destruct (Hex _ _ Hl ltac:(rewrite Epc; simpl; split; discriminate)); discriminate ].
+  - destruct (t_pc t) eqn:Epc; simpl in Hin; try contradiction.
+    destruct (Hex _ _ Hl ltac:(rewrite Epc; exact Hin)) as [Ha _].
+    destruct (Hnc _ _ _ _ Hl Epc) as [-> _]. rewrite Ha.
+    destruct st; try (destruct Hin; congruence); repeat case_match; eauto.
+Qed.
+
+(* No global deadlock: in every state reachable without Close in which some goroutine is inside a call (or the
+   applier has work), some goroutine can take a step.  [c_cap >= 1]: NewCache uses a buffered setBuf. *)
+Theorem no_deadlock c s :
+  (1 <= c_cap c)%nat -> clr_inv s -> proto_inv s ->
+  busy s \/ s_buf s <> [] \/ s_apend s <> [] \/ (s_apc s <> AIdle /\ s_apc s <> AExited) ->
+  exists l, progress_label l /\ enabled c s l.
+Proof.
+  intros Hcap Hclr Hpi Hwork.
+  pose proof (pi_open _ Hpi) as (_ & _ & Hp).
+  destruct (s_apend s) eqn:Epend.
+  2: { exists (LApp false []). split; [exact I|]. apply app_progress; auto. left. congruence. }
+  assert (Happ : s_apc s <> AIdle -> s_apc s <> AExited -> exists l, progress_label l /\ enabled c s l).
+  { intros. exists (LApp false []). split; [exact I|]. apply app_progress; auto. }
+  destruct (s_apc s) eqn:Ea; try (apply Happ; discriminate).
+  - destruct (s_buf s) eqn:Ebuf.
+    2: { exists (LApp false []). split; [exact I|]. apply app_progress; auto. right; right. split; congruence. }
+    destruct Hwork as [(tid & t & Hl & Hop)|[?|[?|[? _]]]]; try congruence.
+    exists (LStep tid). split; [exact I|]. eapply client_enabled; eauto.
+  - destruct (pi_exited _ Hpi Ea) as (tid & t & Hl & Hin).
+    exists (LStep tid). split; [exact I|]. eapply client_enabled; eauto.
+    intros Hn. apply (ci_idle _ Hclr) in Hl; auto. rewrite Hl in Hin. exact Hin.
+Qed.
